@@ -21,7 +21,9 @@ nativize_pathlib()
 
 IDS = ["MIT", "MIT+", "GPL-3.0", "Foo", "LicenseRef-x", "LicenseRef-x+"]
 NREQ = int(PARAMS.get("nreq", 2))
-LAYOUT = PARAMS.get("layout", "root")  # root | in-licenses
+LAYOUT = PARAMS.get("layout", "root")  # root | in-licenses | vcs-root-named-licenses
+# where the statement says the text goes: LICENSES/ under the project root
+LICDIR = "/proj/LICENSES/LICENSES" if LAYOUT == "vcs-root-named-licenses" else "/proj/LICENSES"
 OUTPUT = bool(PARAMS.get("output", False))
 SOURCE = PARAMS.get("source", "none")  # none | file | dir | dir-missing
 
@@ -90,10 +92,25 @@ def copyfile(src, dst):
     FS.files[str(dst)] = FS.files[str(src)]
 
 
+class _SomeVCS:
+    """Stands for a detected version control system (anything that is not VCSStrategyNone)."""
+
+    EXE = "git"
+
+    def __init__(self, root):
+        self.root = root
+
+    def is_ignored(self, path):
+        return False
+
+    def is_submodule(self, path):
+        return False
+
+
 class _Project:
     def __init__(self, root):
         self.root = FakePath(root)
-        self.vcs_strategy = VCSStrategyNone(root)
+        self.vcs_strategy = _SomeVCS(root) if LAYOUT == "vcs-root-named-licenses" else VCSStrategyNone(root)
 
 
 class _Obj:
@@ -126,10 +143,12 @@ def run_download(i0, n0, i1, n1, pre0, pre1, licdir):
             req.append((IDS[PARAMS["first"]], _b(n)))
         else:
             req.append((IDS[_pick_from(i, list(range(len(IDS))))], _b(n)))
-    root = "/proj/LICENSES" if LAYOUT == "in-licenses" else "/proj"
-    licenses_dir = "/proj/LICENSES"
+    root = "/proj/LICENSES" if LAYOUT in ("in-licenses", "vcs-root-named-licenses") else "/proj"
+    licenses_dir = LICDIR
     FS.files, FS.dirs, FS.opened_for_write = {}, {"/", "/proj", "/src"}, []
-    FS.cwd = "/proj/LICENSES" if LAYOUT == "in-licenses" else "/proj"
+    FS.cwd = root
+    if LAYOUT == "vcs-root-named-licenses":
+        FS.dirs.add("/proj/LICENSES")
     if _b(licdir) or LAYOUT == "in-licenses":
         FS.dirs.add(licenses_dir)
     pre = [_b(pre0), _b(pre1)]
@@ -205,7 +224,7 @@ def story(*a):
     failures = 0
     allowed_new = set()
     for b in bases:
-        dest = output or f"/proj/LICENSES/{b}.txt"
+        dest = output or f"{LICDIR}/{b}.txt"
         allowed_new.add(dest)
         existed = dest in bf
         is_ref = b.startswith("LicenseRef-")
